@@ -10,10 +10,13 @@ _cache = {}
 
 
 def sites_of(repo):
-    key = id(repo)
-    if key not in _cache:
-        _cache[key] = collect_sites(repo)
-    return _cache[key]
+    # cached on the Repo object itself (an id()-keyed table would hand a dead tree's sites to a new Repo
+    # that happens to reuse the address, e.g. in the self-test worker processes)
+    got = getattr(repo, "_sites_cache", None)
+    if got is None:
+        got = collect_sites(repo)
+        repo._sites_cache = got
+    return got
 
 
 def in_scope(func):
